@@ -12,11 +12,13 @@ mod cddl;
 mod engine;
 mod fx;
 mod gen;
+mod ledger;
 mod props;
 mod refcbor;
 mod report;
 mod util;
 
+use cardano_serialization_lib::verif_hooks;
 use report::Tier;
 
 fn usage() -> ! {
